@@ -932,3 +932,51 @@ def awaits(tier, seed):
         p = P(f"rand{k}", SJ(2) + JJ(2), w, wt) if rng.random() < 0.7 else P(f"rand{k}", [spawn(2)] + wt + [join(2)], w)
         progs.append(p)
     return [normalize(p) for p in progs], [normalize(p) for p in never_shapes()]
+
+
+def static_shapes():
+    out = []
+    A = out.append
+    TW = lambda k: I("tlwith", k)
+    LZ = lambda z, k="": I("lzget", z, k=k)
+    A(P("tl-1thread", [TW("T0"), TW("T0"), TW("T1")]))
+    A(P("tl-private", SJ(2) + [TW("T0")] + JJ(2) + [TW("T0")], [TW("T0"), TW("T0")], [TW("T0")]))
+    A(P("tl-nested", SJ(1) + [I("tlnest", "T0", o2="T1"), TW("T1")] + JJ(1), [I("tlnest", "T1", o2="T0"), I("tlnest", "T0", o2="T1")]))
+    A(P("tl-unused-thread", SJ(2) + JJ(2), [TW("T0")], [ld("x")]))
+    A(P("tl-4threads", SJ(3) + [TW("T1")] + JJ(3), [TW("T1"), TW("T0")], [TW("T0")], [TW("T1"), TW("T1")]))
+    A(P("lz-1thread", [LZ("Z0"), LZ("Z0")]))
+    A(P("lz-shared", SJ(2) + [LZ("Z0")] + JJ(2), [LZ("Z0")], [LZ("Z0")]))
+    A(P("lz-two-statics", SJ(2) + JJ(2) + [LZ("Z0")], [LZ("Z0"), LZ("Z1", "yield")], [LZ("Z1", "yield")]))
+    A(P("lz-racing-init", SJ(2) + JJ(2), [LZ("Z1", "yield")], [LZ("Z1", "yield")]))
+    A(P("lz-racing-init-3", SJ(3) + JJ(3), [LZ("Z1", "yield")], [LZ("Z1", "yield")], [LZ("Z1", "yield")]))
+    A(P("lz-publishes-data", SJ(2) + JJ(2), [LZ("Z0"), rd("c_Z0")], [LZ("Z0"), rd("c_Z0")]))
+    A(P("lz-racy-publishes-data", SJ(2) + JJ(2), [LZ("Z1", "yield"), rd("c_Z1")], [LZ("Z1", "yield"), rd("c_Z1")]))
+    A(P("lz-init-in-main-before-spawn", [LZ("Z0")] + SJ(2) + JJ(2), [LZ("Z0"), rd("c_Z0")], [rd("c_Z0")]))
+    A(P("lz-and-tl", SJ(2) + JJ(2), [TW("T0"), LZ("Z0"), TW("T0")], [LZ("Z0"), TW("T0")]))
+    A(P("lz-with-atomics", SJ(2) + JJ(2) + [ld("x")], [st("x", 1, "rel"), LZ("Z0")], [LZ("Z0"), ld("x", "acq")]))
+    return out
+
+
+def statics(tier, seed):
+    rng = random.Random(seed * 9001 + 59)
+    progs = static_shapes()
+    for k in range(20 if tier == "quick" else 250):
+        n = rng.choice([1, 2, 2, 3])
+        ths = []
+        for t in range(n + 1):
+            th = []
+            for _ in range(rng.choice([1, 2, 2, 3])):
+                w = rng.choice(["tl", "tl", "lz", "lz", "nest", "atom"])
+                if w == "tl": th.append(I("tlwith", rng.choice(["T0", "T1"])))
+                elif w == "nest":
+                    a = rng.choice(["T0", "T1"])
+                    th.append(I("tlnest", a, o2="T1" if a == "T0" else "T0"))
+                elif w == "lz":
+                    z = rng.choice(["Z0", "Z1"])
+                    th.append(I("lzget", z, k="yield" if z == "Z1" else ""))
+                    if rng.random() < 0.4: th.append(rd("c_" + z))
+                else: th.append(rng.choice([ld("x", "acq"), fadd("x", 1, "acqrel")]))
+            ths.append(th)
+        main = [spawn(t) for t in range(2, n + 2)] + ths[0] + [join(t) for t in range(2, n + 2)]
+        progs.append(P(f"rand{k}", main, *ths[1:]))
+    return [normalize(p) for p in progs]
